@@ -31,7 +31,7 @@ import string
 import sys
 
 VERIF = os.path.dirname(os.path.dirname(os.path.abspath(__file__)))
-GEN_DIR = os.path.join(VERIF, 'lean', 'BufrModel', 'Gen')
+GEN_DIR = os.environ.get('PY2LEAN_OUT') or os.path.join(VERIF, 'lean', 'BufrModel', 'Gen')
 
 
 def repo_root():
@@ -73,7 +73,8 @@ SPEC = [
                 'QA_INFO_NA', 'QA_INFO_WAITING', 'QA_INFO_PROCESSING']},
     {'module': 'utils', 'file': 'pybufrkit/utils.py',
      'consts': ['TEXT_SECTION_HEADER', 'TEXT_SUBSET_HEADER'],
-     'funcs': {'fixed_width_repr_of_int': {'params': {'value': 'int', 'width': 'int', 'pad_left': 'bool'}}}},
+     'funcs': {'fixed_width_repr_of_int': {'params': {'value': 'int', 'width': 'int', 'pad_left': 'bool'}},
+               'flatten_list': {'params': {'values': 'list[tree[obj]]'}, 'returns': 'list[obj]', 'recursive': True}}},
     {'module': 'descriptors', 'file': 'pybufrkit/descriptors.py',
      'classes': {
          'Descriptor': {'attrs': {'id': 'int'}, 'methods': {'F': {}, 'X': {}, 'Y': {}}},
@@ -134,7 +135,7 @@ def parse_type(s):
     s = s.strip()
     if s in ('int', 'nat', 'bool', 'str', 'bytes', 'obj'):
         return (s,)
-    m = re.match(r'(list|dict|tuple)\[(.*)\]$', s)
+    m = re.match(r'(list|dict|tuple|tree)\[(.*)\]$', s)
     if not m:
         raise ValueError('bad type %r' % s)
     parts, depth, cur = [], 0, ''
@@ -169,6 +170,8 @@ def lean_type(t, top=True):
         return 'Py.Obj'
     elif k == 'list':
         r = 'List ' + lean_type(t[1], False)
+    elif k == 'tree':
+        r = 'Py.Tree ' + lean_type(t[1], False)
     elif k == 'dict':
         r = 'List (%s × %s)' % (lean_type(t[1]), lean_type(t[2]))
     elif k == 'tuple':
@@ -189,6 +192,8 @@ def default_value(t):
         return '[]'
     if k == 'obj':
         return '{}'
+    if k == 'tree':
+        return '(.list [])'
     if k == 'tuple':
         return '(' + ', '.join(default_value(x) for x in t[1:]) + ')'
     raise ValueError(t)
@@ -651,6 +656,12 @@ class ExprCompiler(object):
                 if k == 'str':
                     return a
                 self.bad(e, 'str() of a %s' % k)
+            if getattr(self, 'recursive', False) and f.id == self.node.name and not e.keywords:
+                # a call of the function being translated: one unit of fuel less
+                if len(e.args) != len(self.params):
+                    self.bad(e, 'recursive call with a different number of arguments')
+                args = [self.coerce(self.to_int(self.expr(a)), t, e) for a, t in zip(e.args, self.params.values())]
+                return self.lift(args, lambda c: '(%s fuel %s)' % (self.lean_name, ' '.join(c)), self.ret_type, result_raises=True)
             self.bad(e, 'call of %s is not in the table' % f.id)
         if isinstance(f, ast.Attribute):
             if f.attr == 'format' and isinstance(f.value, ast.Constant) and isinstance(f.value.value, str):
@@ -748,8 +759,10 @@ class ExprCompiler(object):
 class FuncCompiler(ExprCompiler):
     """one function: statements over a record of the local variables"""
 
-    def __init__(self, mod, gen, node, lean_name, params, self_attrs=None):
+    def __init__(self, mod, gen, node, lean_name, params, self_attrs=None, returns=None, recursive=False):
         ExprCompiler.__init__(self, mod, gen)
+        self.returns = returns
+        self.recursive = recursive
         self.node = node
         self.lean_name = lean_name
         self.params = params            # ordered: name -> type (without self)
@@ -759,7 +772,7 @@ class FuncCompiler(ExprCompiler):
         self.local_types = {}
         self.nat_locals = set()
         self.assign_natness = {}
-        self.ret_type = TV()
+        self.ret_type = returns if returns is not None else TV()
         self.may_raise = False
 
     # -- collecting the locals --------------------------------------------------------------
@@ -843,6 +856,10 @@ class FuncCompiler(ExprCompiler):
             elif isinstance(s, ast.While):
                 self.check_reads(s.test, assigned)
                 self.definite(s.body, assigned)
+            elif isinstance(s, ast.For):
+                self.check_reads(s.iter, assigned)
+                if isinstance(s.target, ast.Name):
+                    self.definite(s.body, assigned | {s.target.id})
             elif isinstance(s, (ast.Expr, ast.Return, ast.Raise)):
                 for c in ast.iter_child_nodes(s):
                     self.check_reads(c, assigned)
@@ -929,6 +946,10 @@ class FuncCompiler(ExprCompiler):
             self.bad(s, 'expression statement is not in the table (only local_list.append(x))')
         if isinstance(s, ast.Pass):
             return 'v', False
+        if isinstance(s, ast.If) and self.is_isinstance_list(s.test):
+            return self.isinstance_if(s)
+        if isinstance(s, ast.For):
+            return self.for_loop(s)
         if isinstance(s, ast.If):
             c = self.as_bool(self.expr(s.test), s.test)
             a, ar = self.block(s.body)
@@ -951,6 +972,80 @@ class FuncCompiler(ExprCompiler):
         if isinstance(s, ast.Return):
             self.bad(s, '`return` that is not in tail position')
         self.bad(s, 'statement construct %s is not in the table' % type(s).__name__)
+
+    def is_isinstance_list(self, t):
+        return (isinstance(t, ast.Call) and isinstance(t.func, ast.Name) and t.func.id == 'isinstance'
+                and 'isinstance' not in self.names and len(t.args) == 2 and not t.keywords
+                and isinstance(t.args[0], ast.Name) and t.args[0].id in self.names
+                and isinstance(t.args[1], ast.Name) and t.args[1].id == 'list' and 'list' not in self.names)
+
+    def stores(self, stmts):
+        out = set()
+        for st in stmts:
+            for n in ast.walk(st):
+                if isinstance(n, ast.Name) and isinstance(n.ctx, (ast.Store, ast.Del)):
+                    out.add(n.id)
+                if (isinstance(n, ast.Call) and isinstance(n.func, ast.Attribute) and isinstance(n.func.value, ast.Name)):
+                    out.add(n.func.value.id)      # x.append(..) and any other method call on a local
+                if isinstance(n, ast.Subscript) and isinstance(n.ctx, ast.Store) and isinstance(n.value, ast.Name):
+                    out.add(n.value.id)
+        return out
+
+    def isinstance_if(self, s):
+        """`if isinstance(x, list): A else: B` on a local of type tree[T]: a match that narrows x in both branches"""
+        nm = s.test.args[0].id
+        ex = self.expr(s.test.args[0])
+        t = prune(ex.ty)
+        if isinstance(t, TV) or t[0] != 'tree':
+            self.bad(s, 'isinstance(x, list) on a value that is not of the list-or-leaf type')
+        if nm in self.stores(s.body) | self.stores(s.orelse):
+            self.bad(s, 'assignment to %s inside the isinstance branches' % nm)
+        saved = self.names[nm]
+        ln = lean_ident(nm)
+        try:
+            self.names[nm] = ('%s_list' % ln, ('list', t))
+            a, ar = self.block(s.body)
+            self.names[nm] = ('%s_leaf' % ln, t[1])
+            b, br = self.block(s.orelse) if s.orelse else ('v', False)
+        finally:
+            self.names[nm] = saved
+        if ar or br:
+            if not ar:
+                a = '(pure %s)' % a
+            if not br:
+                b = '(pure %s)' % b
+        text = '(match %s with\n  | .list %s_list =>\n    %s\n  | .leaf %s_leaf =>\n    %s)' % (
+            ex.code, ln, indent_rest(a, 4), ln, indent_rest(b, 4))
+        return text, (ar or br)
+
+    def for_loop(self, s):
+        """`for x in xs: body` -> Py.forIn xs v (fun x v => body): the list is evaluated once, by value"""
+        if s.orelse:
+            self.bad(s, 'for ... else')
+        for n in ast.walk(s):
+            if isinstance(n, (ast.Break, ast.Continue)):
+                self.bad(n, 'break / continue')
+            if isinstance(n, ast.Return):
+                self.bad(n, '`return` inside a loop')
+        if not isinstance(s.target, ast.Name):
+            self.bad(s, 'for loop with a non-name target')
+        it = self.expr(s.iter)
+        if it.raises:
+            self.bad(s, 'for loop over an expression that may raise')
+        ti = prune(it.ty)
+        if isinstance(ti, TV) or ti[0] != 'list':
+            self.bad(s, 'for loop over something that is not a list')
+        used = {n.id for n in ast.walk(s.iter) if isinstance(n, ast.Name)}
+        clash = used & (self.stores(s.body) | {s.target.id})
+        if clash:
+            self.bad(s, 'for loop whose body changes the list it iterates over (%s)' % ', '.join(sorted(clash)))
+        self.tmp += 1
+        x = 'x%d' % self.tmp
+        first = self.set_local(s.target.id, Ex(x, ti[1]), s)
+        body, braises = self.seq([first] + [self.stmt(b) for b in s.body])
+        fn = 'Py.forIn' if braises else 'Py.forInPure'
+        text = '(%s %s v (fun (%s : %s) (v : Locals) =>\n    %s))' % (fn, it.code, x, lean_type(ti[1]), indent_rest(body, 4))
+        return text, braises
 
     def raise_stmt(self, s):
         if s.cause is not None or s.exc is None:
@@ -1001,6 +1096,8 @@ class FuncCompiler(ExprCompiler):
     def while_loop(self, s):
         if s.orelse:
             self.bad(s, 'while ... else')
+        if self.recursive:
+            self.bad(s, 'while loop inside a recursive function')
         for n in ast.walk(s):
             if isinstance(n, (ast.Break, ast.Continue)):
                 self.bad(n, 'break / continue')
@@ -1212,6 +1309,20 @@ class FuncCompiler(ExprCompiler):
         out.append('open %s in' % ns)
         out.append(doc)
         init = ', '.join('%s := %s' % (f, d) for f, _, d in fields)
+        if self.recursive:
+            # recursion on a fuel argument: every call of the function itself passes one unit less;
+            # `.error .outOfFuel` at 0 (so `f fuel x = .ok y` shows that the fuel sufficed)
+            if self.self_attrs is not None:
+                self.bad(self.node, 'recursive method')
+            sig = ' → '.join(['Nat'] + [lean_type(t, False) for t in self.params.values()] +
+                             ['Except Py.Exc %s' % lean_type(self.ret_type, False)])
+            pats0 = ', '.join(['0'] + ['_'] * len(self.params))
+            pats1 = ', '.join(['fuel + 1'] + [lean_ident(p) for p in self.params])
+            if not raises:
+                text = '(pure %s)' % text
+            out.append('def %s : %s\n  | %s => .error .outOfFuel\n  | %s =>\n    let v : Locals := { %s }\n    %s' % (
+                ns, sig, pats0, pats1, init, indent_rest(text, 4)))
+            return '\n'.join(out), True
         out.append('def %s%s : %s :=\n  let v : Locals := { %s }\n  %s' % (ns, params_sig, rty, init, indent_rest(text, 2)))
         return '\n'.join(out), raises
 
@@ -1263,7 +1374,9 @@ class ModuleGen(object):
                 raise Py2LeanUnsupported(self.mod.relpath, 0, 'function %s not found exactly once' % fname)
             node = nodes[0]
             params = {p: parse_type(t) for p, t in fs['params'].items()}
-            fc = FuncCompiler(self.mod, self, node, lean_ident(fname), params)
+            fc = FuncCompiler(self.mod, self, node, lean_ident(fname), params,
+                              returns=parse_type(fs['returns']) if fs.get('returns') else None,
+                              recursive=bool(fs.get('recursive')))
             a, b, _ = self.mod.src(node)
             doc = '/-- %s:%d-%d  `def %s` -/' % (self.mod.relpath, a, b, fname)
             text, raises = fc.render(doc)
@@ -1358,8 +1471,10 @@ def render_all():
             out.append((spec, gen_path(spec), text, g.items, None))
         except Py2LeanUnsupported as e:
             out.append((spec, gen_path(spec), failed_file(spec, e), [], e))
-        except RecursionError as e:   # pragma: no cover
-            err = Py2LeanUnsupported(spec['file'], 0, 'translator recursion limit: %s' % e)
+        except Exception as e:   # pragma: no cover
+            # an internal error of the translator on an unforeseen source shape is a failed translation too
+            # (broken tie, exit 1), never a silent fall-back to the previous output
+            err = Py2LeanUnsupported(spec['file'], 0, 'translator internal error: %s: %s' % (type(e).__name__, e))
             out.append((spec, gen_path(spec), failed_file(spec, err), [], err))
     return out
 
